@@ -8,6 +8,7 @@ UNITS = {
     "handle_a": [TF], "handle_b": [TF], "handle_b2": [TF], "handle_c": [TF],
     "logger": [TF],
     "flw": [()],
+    "multi": [()],
     "handle": [()],
     "naming": [()],
     "listing": [()],
@@ -23,12 +24,12 @@ PROP_UNITS = {
     "C07": [("state", ()), ("listing", ())],
     "C08": [("state", ())],
     "C09": [("state", ())],
-    "C13": [("logger", TF), ("flw", ())],
+    "C13": [("logger", TF), ("flw", ()), ("multi", ())],
     "C14": [("state", ()), ("listing", ()), ("naming", ())],
     "C15": [("state", ()), ("handle", ()), ("flw", ())],
     "C16": [("naming", ()), ("listing", ()), ("state", ())],
     "C18": [("state", ()), ("handle", ())],
-    "C19": [("state", ()), ("logger", TF)],
+    "C19": [("state", ()), ("logger", TF), ("multi", ())],
 }
 
 # property -> Kani groups (see lib/kani_unit.py)
